@@ -249,6 +249,11 @@ def build_request(uni, in_prot, rclass, rng):
         return encode_request(uni, in_prot, 'fail', {'a': 3})
     if kind == 'badreturn':
         ctl.bad_return = True
+        if len(rclass) > 1 and rclass[1] == 'multi':
+            # a method declared with two return values hands back None
+            r = encode_request(uni, in_prot, 'multi', {'a': 3})
+            r.label = ('multi', 'badreturn')
+            return r
         return encode_request(uni, in_prot, 'bad', {'a': 3})
     if kind == 'unknown':
         r = encode_request(uni, in_prot, 'noargs', {},
